@@ -197,7 +197,7 @@ pub fn bisync_io_faults(mode: &str, seed: u64, thorough: bool) -> (u64, Vec<Viol
     let res: Vec<(u64, Vec<Violation>)> = jobs
         .par_iter()
         .map(|&(i, s, errno, reads)| {
-            let slot = Slot { root: base.path(&format!("w{i}-{errno}-{reads}")) };
+            let slot = Slot::new(base.path(&format!("w{i}-{errno}-{reads}")));
             let _ = std::fs::create_dir_all(&slot.root);
             slot.prepare(s);
             let logp = slot.root.join("log");
@@ -351,6 +351,8 @@ fn scenarios(seed: u64, thorough: bool) -> Vec<Scn> {
 
 struct Slot {
     root: PathBuf,
+    /// name of the template directory `restore` copies from ("tpl"; "tpl2" while a crash state is the pre-state)
+    tplname: std::cell::Cell<&'static str>,
 }
 impl Slot {
     fn a(&self) -> PathBuf {
@@ -362,8 +364,11 @@ impl Slot {
     fn home(&self) -> PathBuf {
         self.root.join("home")
     }
+    fn new(root: PathBuf) -> Slot {
+        Slot { root, tplname: std::cell::Cell::new("tpl") }
+    }
     fn tpl(&self) -> PathBuf {
-        self.root.join("tpl")
+        self.root.join(self.tplname.get())
     }
     fn restore(&self) {
         for n in ["A", "B", "home"] {
@@ -650,20 +655,24 @@ fn prepare_state(slot: &Slot, s: &StateScn) {
 
 fn c08_scenario(slot: &Slot, s: &Scn, max_subsets: usize, evals: &AtomicU64, nontrivial: &AtomicU64, positions: &AtomicU64) -> Vec<Violation> {
     slot.prepare(s);
-    c08_prepared(slot, &NameOnly { name: s.name.to_string() }, max_subsets, true, evals, nontrivial, positions)
+    c08_prepared(slot, &NameOnly { name: s.name.to_string() }, max_subsets, true, None, DOUBLE_CRASH.load(Ordering::Relaxed) || matches!(s.name, "S2-propagate-A-to-B" | "S6-both-changed" | "S7-delete-vs-modify" | "S8-first-run-no-archive"), evals, nontrivial, positions)
 }
 
 fn c08_state_scenario(slot: &Slot, s: &StateScn, max_subsets: usize, evals: &AtomicU64, nontrivial: &AtomicU64, positions: &AtomicU64) -> Vec<Violation> {
     prepare_state(slot, s);
-    c08_prepared(slot, &NameOnly { name: s.name.clone() }, max_subsets, POST_EDIT_ON_GRAPH.load(Ordering::Relaxed), evals, nontrivial, positions)
+    c08_prepared(slot, &NameOnly { name: s.name.clone() }, max_subsets, POST_EDIT_ON_GRAPH.load(Ordering::Relaxed), None, DOUBLE_CRASH.load(Ordering::Relaxed), evals, nontrivial, positions)
 }
 
-fn c08_prepared(slot: &Slot, s: &NameOnly, max_subsets: usize, post_edit: bool, evals: &AtomicU64, nontrivial: &AtomicU64, positions: &AtomicU64) -> Vec<Violation> {
+/// `outer` = Some(k1) when the pre-state of this call is itself the crash state "killed before call k1" of the
+/// scenario (a SECOND crash, during the recovery run); `double` = enumerate such second crashes from every
+/// untorn first-level crash state.
+#[allow(clippy::too_many_arguments)]
+fn c08_prepared(slot: &Slot, s: &NameOnly, max_subsets: usize, post_edit: bool, outer: Option<u64>, double: bool, evals: &AtomicU64, nontrivial: &AtomicU64, positions: &AtomicU64) -> Vec<Violation> {
     let mut out: Vec<Violation> = Vec::new();
     let logp = slot.root.join("log");
+    slot.restore();
     let pre = slot.state();
     // (1) uninterrupted, twice: determinism + N
-    slot.restore();
     let r1 = slot.bisync(Some(&logp), None);
     let log1 = read_log(&logp);
     let fin = slot.state();
@@ -674,10 +683,20 @@ fn c08_prepared(slot: &Slot, s: &NameOnly, max_subsets: usize, post_edit: bool, 
         machinery_error(format!("scenario {}: two uninterrupted runs differ (log or final state) — nondeterminism not owned", s.name));
     }
     if !(r1.code == Some(0) || (r1.code == Some(1) && r1.stderr.contains("had conflicts"))) {
+        if outer.is_some() {
+            return out; // a recovery run that fails is reported by the first level (recovery_fails)
+        }
         machinery_error(format!("scenario {}: uninterrupted run failed: {:?} {}", s.name, r1.code, r1.stderr));
     }
     let n = log1.len() as u64;
-    let det = |k: u64, torn: &Value| json!({"scenario": s.name, "kill_at": k, "torn": torn});
+    let det = |k: u64, torn: &Value| match outer {
+        None => json!({"scenario": s.name, "kill_at": k, "torn": torn}),
+        Some(k1) => json!({"scenario": s.name, "kill_at": k1, "second_kill_at": k, "torn": torn}),
+    };
+    let sname = match outer {
+        None => s.name.clone(),
+        Some(k1) => format!("{} [first crash: killed before call {k1}; this is the recovery run]", s.name),
+    };
     // trace-order invariant
     evals.fetch_add(1, Ordering::Relaxed);
     if let Some((k, m)) = c08_trace_order(&log1) {
@@ -701,6 +720,16 @@ fn c08_prepared(slot: &Slot, s: &NameOnly, max_subsets: usize, post_edit: bool, 
         }
         let kill_state = slot.state();
         positions.fetch_add(1, Ordering::Relaxed);
+        if outer.is_some() {
+            SECOND_POINTS.fetch_add(1, Ordering::Relaxed);
+        }
+        if double && outer.is_none() && k <= n {
+            // the real on-disk crash state (mtimes included) becomes the template of a nested enumeration
+            wipe(&slot.root.join("tpl2"));
+            for nm in ["A", "B", "home"] {
+                copy_dir(&slot.root.join(nm), &slot.root.join("tpl2").join(nm));
+            }
+        }
         // torn variants: subsets of dirty files
         let dirty = dirty_files(&klog, k.saturating_sub(1));
         let dnames: Vec<&String> = dirty.keys().collect();
@@ -743,7 +772,7 @@ fn c08_prepared(slot: &Slot, s: &NameOnly, max_subsets: usize, post_edit: bool, 
                 nontrivial.fetch_add(1, Ordering::Relaxed);
             }
             if let Some((kind, m)) = c08_invariant(&pre, &fin, &st) {
-                out.push(Violation::new(&kind, format!("scenario {} killed before call {k}{}: {m}", s.name, if torn.is_null() { String::new() } else { format!(" + power loss {torn}") }), det(k, &torn)).with("scenario", json!(s.name)).with("torn", json!(!torn.is_null())));
+                out.push(Violation::new(&kind, format!("scenario {} killed before call {k}{}: {m}", sname, if torn.is_null() { String::new() } else { format!(" + power loss {torn}") }), det(k, &torn)).with("scenario", json!(s.name)).with("second_crash", json!(outer.is_some())).with("torn", json!(!torn.is_null())));
                 if out.len() >= 4 {
                     return out;
                 }
@@ -762,14 +791,26 @@ fn c08_prepared(slot: &Slot, s: &NameOnly, max_subsets: usize, post_edit: bool, 
             }
             let after = slot.state();
             if !ok {
-                out.push(Violation::new("recovery_fails", format!("scenario {} killed before call {k}: three recovery runs all failed: {}", s.name, last_err.lines().last().unwrap_or("")), det(k, &torn)).with("scenario", json!(s.name)));
+                out.push(Violation::new("recovery_fails", format!("scenario {} killed before call {k}: three recovery runs all failed: {}", sname, last_err.lines().last().unwrap_or("")), det(k, &torn)).with("scenario", json!(s.name)).with("second_crash", json!(outer.is_some())));
             } else if non_staging(&after.0) != non_staging(&fin.0) || non_staging(&after.1) != non_staging(&fin.1) {
-                out.push(Violation::new("recovery_differs", format!("scenario {} killed before call {k}{}: after recovery the trees differ from the uninterrupted run's (A: {:?} vs {:?})", s.name, if torn.is_null() { String::new() } else { format!(" + power loss {torn}") }, non_staging(&after.0).keys().collect::<Vec<_>>(), non_staging(&fin.0).keys().collect::<Vec<_>>()), det(k, &torn)).with("scenario", json!(s.name)).with("torn", json!(!torn.is_null())));
+                out.push(Violation::new("recovery_differs", format!("scenario {} killed before call {k}{}: after recovery the trees differ from the uninterrupted run's (A: {:?} vs {:?})", sname, if torn.is_null() { String::new() } else { format!(" + power loss {torn}") }, non_staging(&after.0).keys().collect::<Vec<_>>(), non_staging(&fin.0).keys().collect::<Vec<_>>()), det(k, &torn)).with("scenario", json!(s.name)).with("second_crash", json!(outer.is_some())).with("torn", json!(!torn.is_null())));
             } else if let Some(m) = c02_lost(&st, &after) {
-                out.push(Violation::new("recovery_loses_version", format!("scenario {} killed before call {k}: {m}", s.name), det(k, &torn)).with("scenario", json!(s.name)));
+                out.push(Violation::new("recovery_loses_version", format!("scenario {} killed before call {k}: {m}", sname), det(k, &torn)).with("scenario", json!(s.name)).with("second_crash", json!(outer.is_some())));
             }
             if out.len() >= 4 {
                 return out;
+            }
+            // (5b) a SECOND crash: the recovery run from this (untorn) crash state is itself killed before every one
+            // of its calls; the crash state is the pre-state of the nested enumeration, so the same invariant applies
+            // (every file a complete version that existed, paths never vanish, the record old or new and never ahead).
+            if torn.is_null() && double && outer.is_none() && k <= n && ok {
+                slot.tplname.set("tpl2");
+                let vs = c08_prepared(slot, s, 1, false, Some(k), false, evals, nontrivial, positions);
+                slot.tplname.set("tpl");
+                out.extend(vs);
+                if out.len() >= 4 {
+                    return out;
+                }
             }
             // (6) the user edits a file AFTER the crash and before running bisync again (a history continues from
             // every crash state): the recovery run(s) must complete, lose nothing (C02), leave both sides equal with
@@ -821,17 +862,17 @@ fn c08_prepared(slot: &Slot, s: &NameOnly, max_subsets: usize, post_edit: bool, 
                     let d2 = json!({"scenario": s.name, "kill_at": k, "torn": Value::Null, "post_crash_edit": {"side": side, "path": target, "variant": variant}});
                     let what = format!("scenario {} killed before call {k}, then {target} rewritten ({variant}) on side {side}", s.name);
                     if !ok {
-                        out.push(Violation::new("recovery_fails", format!("{what}: three recovery runs all failed: {}", last_err.lines().last().unwrap_or("")), d2).with("scenario", json!(s.name)).with("post_crash_edit", json!(true)));
+                        out.push(Violation::new("recovery_fails", format!("{what}: three recovery runs all failed: {}", last_err.lines().last().unwrap_or("")), d2).with("scenario", json!(s.name)).with("second_crash", json!(outer.is_some())).with("post_crash_edit", json!(true)));
                     } else if let Some((p, b)) = after.0.iter().chain(after.1.iter()).filter(|(p, _)| !is_staging(p)).find(|(_, b)| !known.contains(b)) {
-                        out.push(Violation::new("alien_bytes", format!("{what}: after recovery {p} holds {} bytes that were never written by anyone", b.len()), d2).with("scenario", json!(s.name)).with("post_crash_edit", json!(true)));
+                        out.push(Violation::new("alien_bytes", format!("{what}: after recovery {p} holds {} bytes that were never written by anyone", b.len()), d2).with("scenario", json!(s.name)).with("second_crash", json!(outer.is_some())).with("post_crash_edit", json!(true)));
                     } else if non_staging(&after.0) != non_staging(&after.1) {
-                        out.push(Violation::new("recovery_not_converged", format!("{what}: after a completed recovery run the two sides differ"), d2).with("scenario", json!(s.name)).with("post_crash_edit", json!(true)));
+                        out.push(Violation::new("recovery_not_converged", format!("{what}: after a completed recovery run the two sides differ"), d2).with("scenario", json!(s.name)).with("second_crash", json!(outer.is_some())).with("post_crash_edit", json!(true)));
                     } else if let Some(m) = c02_lost(&edited, &after) {
-                        out.push(Violation::new("recovery_loses_version", format!("{what}: {m}"), d2).with("scenario", json!(s.name)).with("post_crash_edit", json!(true)));
+                        out.push(Violation::new("recovery_loses_version", format!("{what}: {m}"), d2).with("scenario", json!(s.name)).with("second_crash", json!(outer.is_some())).with("post_crash_edit", json!(true)));
                     } else {
                         let r = slot.bisync(None, None);
                         if r.code != Some(0) || slot.state().0 != after.0 || slot.state().1 != after.1 {
-                            out.push(Violation::new("recovery_not_idempotent", format!("{what}: a further run after the completed recovery exits {:?} or changes a tree", r.code), d2).with("scenario", json!(s.name)).with("post_crash_edit", json!(true)));
+                            out.push(Violation::new("recovery_not_idempotent", format!("{what}: a further run after the completed recovery exits {:?} or changes a tree", r.code), d2).with("scenario", json!(s.name)).with("second_crash", json!(outer.is_some())).with("post_crash_edit", json!(true)));
                         }
                     }
                     if out.len() >= 4 {
@@ -845,10 +886,14 @@ fn c08_prepared(slot: &Slot, s: &NameOnly, max_subsets: usize, post_edit: bool, 
 }
 
 static POST_EDIT_ON_GRAPH: std::sync::atomic::AtomicBool = std::sync::atomic::AtomicBool::new(false);
+static SECOND_POINTS: AtomicU64 = AtomicU64::new(0);
+static DOUBLE_CRASH: std::sync::atomic::AtomicBool = std::sync::atomic::AtomicBool::new(false);
 
 pub fn run_c08(ctx: &Ctx) -> ! {
     let thorough = ctx.tier.is_thorough();
     POST_EDIT_ON_GRAPH.store(thorough, Ordering::Relaxed);
+    let replay_double = ctx.replay.as_ref().and_then(|rp| serde_json::from_slice::<Value>(&std::fs::read(rp).unwrap_or_default()).ok()).is_some_and(|v| v["detail"]["second_kill_at"].is_u64());
+    DOUBLE_CRASH.store(thorough || replay_double, Ordering::Relaxed);
     let scs = scenarios(ctx.seed, thorough);
     let evals = AtomicU64::new(0);
     let nontrivial = AtomicU64::new(0);
@@ -865,7 +910,7 @@ pub fn run_c08(ctx: &Ctx) -> ! {
         .par_iter()
         .enumerate()
         .flat_map_iter(|(i, s)| {
-            let slot = Slot { root: base.path(&format!("w{i}")) };
+            let slot = Slot::new(base.path(&format!("w{i}")));
             let _ = std::fs::create_dir_all(&slot.root);
             c08_scenario(&slot, s, max_subsets, &evals, &nontrivial, &positions)
         })
@@ -890,7 +935,7 @@ pub fn run_c08(ctx: &Ctx) -> ! {
         for w in 0..16 {
             let (next, gv, chosen_graph, base, evals, nontrivial, positions) = (&next, &gv, &chosen_graph, &base, &evals, &nontrivial, &positions);
             sc.spawn(move || {
-                let slot = Slot { root: base.path(&format!("g{w}")) };
+                let slot = Slot::new(base.path(&format!("g{w}")));
                 let _ = std::fs::create_dir_all(&slot.root);
                 loop {
                     let i = next.fetch_add(1, Ordering::Relaxed) as usize;
@@ -923,10 +968,11 @@ pub fn run_c08(ctx: &Ctx) -> ! {
         .set("kill_points", positions.load(Ordering::Relaxed))
         .set("scenarios", chosen.iter().map(|s| s.name).collect::<Vec<_>>())
         .set("graph_scenarios", graph_scenarios as u64)
-        .set("rule", "scenarios = the named ones (prepared by a real prior sync) PLUS every distinct bisync transition of the bisync history graph (E2 bound; pre-state materialised with its recorded state); per scenario (prepared by a real prior sync so a trusted archive exists): the process is SIGKILLed immediately before its k-th file-system-mutating libc call for EVERY k = 1..N+1 (N from the interposer log of the uninterrupted run, which is replayed twice for determinism); at each k additionally every subset (capped) of files written since their last fsync is torn (empty / half) — crash model: metadata operations persist in issue order, file data only up to the last fsync; each crash state is checked against the state invariant, then recovered with up to 3 more runs; non-trivial = crash state differs from both the initial and the final state")
+        .set("second_crash_kill_points", SECOND_POINTS.load(Ordering::Relaxed))
+        .set("rule", "scenarios = the named ones (prepared by a real prior sync) PLUS every distinct bisync transition of the bisync history graph (E2 bound; pre-state materialised with its recorded state); per scenario (prepared by a real prior sync so a trusted archive exists): the process is SIGKILLed immediately before its k-th file-system-mutating libc call for EVERY k = 1..N+1 (N from the interposer log of the uninterrupted run, which is replayed twice for determinism); at each k additionally every subset (capped) of files written since their last fsync is torn (empty / half) — crash model: metadata operations persist in issue order, file data only up to the last fsync; each crash state is checked against the state invariant, then recovered with up to 3 more runs; SECOND CRASH (quick: S2/S6/S7/S8; thorough: every scenario incl. the graph ones): from every untorn first crash state the recovery run is itself killed before every one of its calls, with the first crash state as pre-state of the same invariant and recovery checks; non-trivial = crash state differs from both the initial and the final state")
         .set("samples", json!([{"scenario":"S6-both-changed","kill_at":9,"torn":null},{"scenario":"S2-propagate-A-to-B","kill_at":7,"torn":{"mask":1,"mode":"empty"}}]))
         .set("exhaustive", true);
-    rep.assume("crash model: rename/unlink/mkdir persist in issue order; data persists only up to the last fsync of that file unless chosen otherwise; a single crash per run; tmpfs stands in for the disk");
+    rep.assume("crash model: rename/unlink/mkdir persist in issue order; data persists only up to the last fsync of that file unless chosen otherwise; at most two crashes in a row (the second one untorn); tmpfs stands in for the disk");
     rep.assume("trace-order invariant evaluated on the interposer log of the uninterrupted run: every staged file is fsynced after its last data write and before its rename; the record's rename comes after all data renames");
     finish(ctx, rep, violations);
 }
@@ -1269,6 +1315,64 @@ fn c09_scenario(slot: &Slot9, s: &S9, seed: u64, max_kills: u64, evals: &AtomicU
         if out.len() >= 3 {
             return out;
         }
+        // a SECOND crash: the re-run from this crash state is itself killed before every one of its calls; the
+        // destination must still hold, path by path, the pre-run or the source version, and a third run completes
+        let double = match C09_DOUBLE.load(Ordering::Relaxed) {
+            0 => false,
+            1 => s.dir == "local" && s.flag != "exclude",
+            _ => s.dir == "local" || (s.dst == "mixed" && s.flag == "delete") || (s.dst == "absent" && s.flag == "none"),
+        };
+        let past_deadline = C09_DEADLINE.get().is_some_and(|d| std::time::Instant::now() > *d);
+        if double && past_deadline {
+            C09_SECOND_SKIPPED.fetch_add(1, Ordering::Relaxed);
+        }
+        if double && !past_deadline && out.is_empty() {
+            slot.restore();
+            let _ = slot.run(s, Some(&logp), Some(k));
+            for nm in ["dst", "rhome"] {
+                wipe(&slot.root.join("crash1").join(nm));
+                copy_dir(&slot.root.join(nm), &slot.root.join("crash1").join(nm));
+            }
+            let mut j = 0u64;
+            loop {
+                j += 1;
+                if j > C09_SECOND_CAP {
+                    C09_SECOND_CAPPED.fetch_add(1, Ordering::Relaxed);
+                    break;
+                }
+                for nm in ["dst", "rhome"] {
+                    wipe(&slot.root.join(nm));
+                    copy_dir(&slot.root.join("crash1").join(nm), &slot.root.join(nm));
+                }
+                let (code2, sig2, _) = slot.run(s, Some(&logp), Some(j));
+                if sig2 != Some(libc::SIGKILL) {
+                    if code2 != Some(0) {
+                        out.push(Violation::new("rerun_fails", format!("scenario {name}, killed before call {k}: the re-run (interposer active, no kill reached at {j}) exits {code2:?}"), det(k)).with("direction", json!(s.dir)).with("second_crash", json!(true)));
+                    }
+                    break;
+                }
+                evals.fetch_add(1, Ordering::Relaxed);
+                C09_SECOND_POINTS.fetch_add(1, Ordering::Relaxed);
+                let d2 = json!({"scenario": name, "dir": s.dir, "dst": s.dst, "flag": s.flag, "kill_at": k, "second_kill_at": j});
+                let dst_now = snapshot_meta(&slot.dst());
+                if let Some((kind, m)) = c09_state_check(s, &src0, &dst0, &snapshot_meta(&slot.src()), &dst_now) {
+                    out.push(Violation::new(&kind, format!("scenario {name}, killed before call {k}, re-run killed before ITS call {j}: {m}"), d2).with("direction", json!(s.dir)).with("second_crash", json!(true)));
+                    break;
+                }
+                let (rc, _, re) = slot.run(s, None, None);
+                let after = snapshot_meta(&slot.dst());
+                if rc != Some(0) {
+                    out.push(Violation::new("rerun_fails", format!("scenario {name}, killed before call {k}, re-run killed before its call {j}: the third run exits {rc:?}: {}", re.lines().last().unwrap_or("")), d2).with("direction", json!(s.dir)).with("second_crash", json!(true)));
+                    break;
+                } else if strip(&after) != strip(&fin) {
+                    out.push(Violation::new("rerun_differs", format!("scenario {name}, killed before call {k}, re-run killed before its call {j}: after the third run the destination differs from an uninterrupted run's"), d2).with("direction", json!(s.dir)).with("second_crash", json!(true)));
+                    break;
+                }
+            }
+            if out.len() >= 3 {
+                return out;
+            }
+        }
         // a history continues from the crash state: the source file that was in flight is replaced by a SHORTER
         // version, then the same command runs; afterwards the destination must hold exactly the new source bytes
         if s.flag != "delete-long" {
@@ -1299,9 +1403,22 @@ fn c09_scenario(slot: &Slot9, s: &S9, seed: u64, max_kills: u64, evals: &AtomicU
 }
 
 use std::sync::Mutex;
+/// 0 = off, 1 = local direction only (quick), 2 = every scenario (thorough)
+static C09_DOUBLE: AtomicU64 = AtomicU64::new(0);
+static C09_SECOND_POINTS: AtomicU64 = AtomicU64::new(0);
+static C09_SECOND_CAPPED: AtomicU64 = AtomicU64::new(0);
+static C09_SECOND_SKIPPED: AtomicU64 = AtomicU64::new(0);
+static C09_DEADLINE: std::sync::OnceLock<std::time::Instant> = std::sync::OnceLock::new();
+/// second-level kill points per first-level crash state (a re-run with more calls is cut here and counted)
+const C09_SECOND_CAP: u64 = 80;
 
 pub fn run_c09(ctx: &Ctx) -> ! {
     let thorough = ctx.tier.is_thorough();
+    C09_DOUBLE.store(if thorough || ctx.replay.is_some() { 2 } else { 1 }, Ordering::Relaxed);
+    if ctx.replay.is_none() {
+        // wall-clock budget of the second-crash enumeration (first crash states reached after it are counted, not explored)
+        let _ = C09_DEADLINE.set(std::time::Instant::now() + std::time::Duration::from_secs(if thorough { 480 } else { 40 }));
+    }
     let mut scs: Vec<S9> = Vec::new();
     if thorough {
         for dir in ["local", "pull", "push"] {
@@ -1373,10 +1490,14 @@ pub fn run_c09(ctx: &Ctx) -> ! {
     rep.set("evaluations", evals.load(Ordering::Relaxed))
         .set("distinct_nontrivial", nontrivial.load(Ordering::Relaxed))
         .set("distinct_crash_positions", npos as u64)
+        .set("second_crash_kill_points", C09_SECOND_POINTS.load(Ordering::Relaxed))
+        .set("second_crash_enumerations_cut_at_cap", json!({"cap": C09_SECOND_CAP, "count": C09_SECOND_CAPPED.load(Ordering::Relaxed)}))
+        .set("second_crash_first_states_skipped_after_wall_budget", C09_SECOND_SKIPPED.load(Ordering::Relaxed))
         .set("scenarios", scs.iter().map(s9_name).collect::<Vec<_>>())
-        .set("rule", "for the LOCAL direction with --jobs 2/3 every point of every thread schedule within a preemption bound is a kill point too (thread_scheduler_kills_local_parallel); per scenario (direction x destination state x flag; files of 0, 1, 300 KiB and 700 000 bytes, --jobs 1): the copia process is SIGKILLed immediately before its k-th file-system-mutating or pipe-write libc call for EVERY k until a run completes unkilled; the harness is a subreaper and waits for every orphaned child (the remote shell command of a push runs to completion on EOF); then the destination is checked path by path, and the same command is re-run to completion and compared with the uninterrupted run; non-trivial = crash state differs from both the initial and the final destination")
+        .set("rule", "for the LOCAL direction with --jobs 2/3 every point of every thread schedule within a preemption bound is a kill point too (thread_scheduler_kills_local_parallel); per scenario (direction x destination state x flag; files of 0, 1, 300 KiB and 700 000 bytes, --jobs 1): the copia process is SIGKILLed immediately before its k-th file-system-mutating or pipe-write libc call for EVERY k until a run completes unkilled; the harness is a subreaper and waits for every orphaned child (the remote shell command of a push runs to completion on EOF); then the destination is checked path by path, and the same command is re-run to completion and compared with the uninterrupted run; SECOND CRASH (quick: local direction; thorough: local direction plus the mixed/--delete and absent/none scenarios of pull and push; within a wall budget, first crash states reached after it are counted as skipped): from every first crash state the re-run is itself killed before each of its first 80 calls (re-runs with more calls are counted as cut), same path-by-path rule against the ORIGINAL pre-run destination, then a third run must complete and equal the uninterrupted result; non-trivial = crash state differs from both the initial and the final destination")
         .set("samples", json!([{"scenario":"push-mixed-delete","kill_at":5},{"scenario":"local-mixed-delete","kill_at":9}]))
-        .set("exhaustive", true);
+        .set("exhaustive_first_level", true)
+        .set("exhaustive", C09_SECOND_CAPPED.load(Ordering::Relaxed) == 0 && C09_SECOND_SKIPPED.load(Ordering::Relaxed) == 0);
     rep.assume("SSH directions run through a stand-in: `ssh host cmd…` = bash -c \"cmd…\" in a per-run remote home (arguments joined by single spaces as OpenSSH does; remote login shell assumed to be bash); the network leg itself is out of scope");
     rep.assume("pipe-write counts depend on reader speed: determinism is required of the log with consecutive pipe writes collapsed, and k ranges over the calls of each actual run");
     finish(ctx, rep, violations);
